@@ -17,6 +17,8 @@ module Z :
 
   val opp : coq_Z -> coq_Z
 
+  val pred : coq_Z -> coq_Z
+
   val sub : coq_Z -> coq_Z -> coq_Z
 
   val mul : coq_Z -> coq_Z -> coq_Z
@@ -56,4 +58,6 @@ module Z :
   val coq_lor : coq_Z -> coq_Z -> coq_Z
 
   val coq_land : coq_Z -> coq_Z -> coq_Z
+
+  val lnot : coq_Z -> coq_Z
  end
